@@ -638,8 +638,8 @@ func init() {
 			"target model: a file is targeted iff its module is targeted by the input and it lies under some --path (if any) and under no --exclude-path",
 			"remote modules (commit ids) are exercised in C10, not here",
 		},
-		Cases: func(tier string) int { return c01BuildCases(tier) + c01ErrorCases(tier) },
-		Run:   c01Run,
+		Cases:    func(tier string) int { return c01BuildCases(tier) + c01ErrorCases(tier) },
+		Run:      c01Run,
 		Required: []string{"descriptors_compared", "order_edges_checked", "wkt_files_checked", "unused_markers_checked", "syntax_unspecified_checked", "error_runs", "diagnostics_matched", "workspace_wkt_copy_checked"},
 	})
 }
